@@ -58,13 +58,13 @@
 ;;> Read a line from the input port \var{in}, defaulting to
 ;;> \scheme{(current-input-port)}, and return the result as
 ;;> a string not including the newline.  Reads at most \var{n}
-;;> characters, defaulting to 8192.
+;;> characters if \var{n} is given, otherwise the whole line.
 
 (define (%read-line n in)
   (cond
    ((stream-port? in) ;;(port-fileno in)
     (port-line-set! in (+ 1 (port-line in)))
-    (%%read-line n in))
+    (%%read-line (or n -1) in))
    (else
     (let ((out (open-output-string)))
       (let lp ((i 0))
@@ -81,7 +81,7 @@
             (if (eqv? #\newline (peek-char in))
                 (read-char in))
             (get-output-string out))
-           ((>= i n)
+           ((and n (>= i n))
             (get-output-string out))
            (else
             (write-char (read-char in) out)
@@ -89,7 +89,7 @@
 
 (define (read-line . o)
   (let ((in (if (pair? o) (car o) (current-input-port)))
-        (n (if (and (pair? o) (pair? (cdr o))) (car (cdr o)) 8192)))
+        (n (if (and (pair? o) (pair? (cdr o))) (car (cdr o)) #f)))
     (let ((res (%read-line n in)))
       (if (not res)
           eof
